@@ -134,3 +134,17 @@ Theorem create_branches_correct_fresh : forall c gs t,
 Proof.
   intros c gs t Hok Hadj Hnd Hincl Hgs Hold. apply create_branches_correct; auto. now apply names_fresh.
 Qed.
+
+(* ------------------------------------------------------------------ no hidden state (table obligation) *)
+Theorem writes_ok_sound : forall t, writes_ok t = true ->
+  forall m, In m tracked_methods -> exists ws, slookup t m = Some ws /\ forall w, In w ws -> In w (allowed_writes m).
+Proof.
+  intros t H m Hm. unfold writes_ok in H. rewrite forallb_forall in H. specialize (H m Hm).
+  destruct (slookup t m) as [ws|]; [|discriminate]. exists ws. split; auto.
+  intros w Hw. rewrite forallb_forall in H. specialize (H w Hw). unfold str_mem in H.
+  apply existsb_exists in H. destruct H as [x [Hx He]]. apply String.eqb_eq in He. now subst.
+Qed.
+
+Example writes_ok_example :
+  writes_ok (map (fun m => (m, allowed_writes m)) tracked_methods) = true.
+Proof. vm_compute. reflexivity. Qed.
